@@ -125,7 +125,7 @@ STATE_SNIPS = [
     "{{ nums|batch(2, 0)|list }}", "{{ nums|slice(2, 9)|list }}", "{{ words|map('upper')|list }}", "{{ recs|map(attribute='n')|list }}",
     "{{ recs|selectattr('n')|list|length }}", "{{ recs|groupby('n')|list|length }}", "{{ words|unique|list }}",
     "{{ words|reverse|list }}", "{{ nums|list }}", "{{ d|dictsort }}", "{{ d|xmlattr }}", "{{ d|tojson }}", "{{ nested|tojson }}",
-    "{{ d|items|list }}", "{{ words|indent(2) if words is string else lines|indent(2) }}", "{{ lines|indent(2, first=true) }}",
+    "{{ d|tojson(indent=2) }}", "{{ nested|tojson(1) }}{{ recs|tojson }}", "{{ d|items|list }}", "{{ words|indent(2) if words is string else lines|indent(2) }}", "{{ lines|indent(2, first=true) }}",
     "{{ d.update({'zz': 1}) if false else '' }}", "{{ nums|first }}{{ nums|last }}{{ nums|min }}{{ nums|max }}", "{{ nums|random is number }}",
     "{{ words|batch(2)|map('join')|list }}", "{{ text|wordwrap(5) }}", "{{ text|truncate(6) }}", "{{ text|urlize }}", "{{ text|striptags }}",
     "{{ gl.a }}{{ gl.its|join }}", "{{ tg.k }}{{ tg.lst|length }}", "{% set v = acc %}{{ v|length }}", "{% set k = d %}{{ k|length }}",
